@@ -102,6 +102,10 @@ def run(ctx):
     for op in ["hash_collect", "hash_partitioned", "smj", "nlj", "shj_single", "shj_partitioned", "shj_pruning", "cross", "pwmj"]:
         if ops.get(op, 0) == 0:
             raise ToolError(f"vacuity: operator {op} was never driven")
+    spilled = {k[8:]: v for k, v in st.items() if k.startswith("spilled:")}
+    for op in ("smj", "nlj"):
+        if spilled.get(op, 0) == 0:
+            raise ToolError(f"vacuity: {op} never spilled under the tight memory budgets (buffered-side spill / memory-limited fallback not reached)")
     report(ctx, res)
     nontrivial_cases = sum(1 for c in cases if c["l"] and c["r"] and c["expect"])
     write_evidence(ctx, "exploration", {
@@ -121,6 +125,8 @@ def run(ctx):
         "multi_partition_evaluations": st.get("multi_partition", 0),
         "tight_memory_evaluations": st.get("tight_memory", 0),
         "resources_exhausted_accepted": st.get("resources_exhausted_accepted", 0),
+        "tight_memory_evaluations_that_spilled_and_matched": spilled,
+        "spilled_by_operator_and_join_type": {k[11:]: v for k, v in st.items() if k.startswith("spilled_jt:")},
         "results_matching": st.get("ok", 0),
         "grid_picks_per_operator": f"{picks} seeded picks per operator out of the 18-point grid (3 input batch sizes x 3 session batch sizes x 2 partition counts; 9 points for single-partition operators)",
     }, assumptions=[
